@@ -4,6 +4,14 @@ import copy
 from n0v import coqlit as L
 from n0v.core import Prop
 from props import xpath_common as X
+from props import c06 as C6
+
+
+def bare_index(rng):
+    """index expressions as the evaluator accepts or rejects them: sign runs, sums, last(), blanks, junk"""
+    sign = rng.choice(["", "", "-", "-", "--", "+", "-+", "---", "+-", " - "])
+    body = rng.choice(["0", "1", "2", "7", "10", "last()", "last()-1", "1+1", "2-1", " 1 ", "x", "1.5", "0x1", "1_0", "", "-", "new()", "last()+1", "1-", "01"])
+    return sign + body
 
 
 class C04(Prop):
@@ -13,7 +21,7 @@ class C04(Prop):
     rule = ("random dict- and list-rooted trees x strings over the xpath alphabet (39 tokens: names, '/', '[', ']', '*', '..', "
             "digits, '-', '+', last(), new(), text(), '=', '!=', '~', quotes, blank, '?', and ready-made steps), 1..8 tokens, "
             "ill-formed included, plus misses derived from real paths (unknown key, index out of range, step below a scalar) and "
-            "'?'-prefixed variants; every string through item access, get and first. non-trivial = the lookup returned a value "
+            "'?'-prefixed variants, bare index expressions with sign runs (list roots hand them to the index evaluator), predicate steps over record lists with literals incl. integers above 2**53; every string through item access, get and first. non-trivial = the lookup returned a value "
             "other than the default; distinct = distinct (tree, string, entry point)")
     trusted_base = ["deep equality of the tree before/after a lookup: harness (copy.deepcopy + structural compare with exact types)"]
     streams = {"lookup": X.LOOKUP_STREAM}
@@ -25,7 +33,19 @@ class C04(Prop):
     def valid(self, case):
         i = case["input"]
         return isinstance(i.get("xpath"), str) and i.get("mode") in ("convert", "wrap", "json") and isinstance(i.get("tree"), (dict, list)) \
-            and i.get("kind") in (0, 1, 2)
+            and i.get("kind") in (0, 1, 2) and self.valid_pred(i)
+
+    @staticmethod
+    def valid_pred(i):
+        pr = i.get("pred")
+        if pr is None:
+            return True
+        xp = i["xpath"]
+        return (isinstance(i["tree"], dict) and isinstance(i["tree"].get("r"), list) and all(isinstance(r, dict) for r in i["tree"]["r"])
+                and pr.get("form") in ("eq", "ne", "has", "text") and pr.get("k") in C6.FIELDS and pr.get("f") in C6.FIELDS
+                and pr.get("ppath") == ["r"] and isinstance(pr.get("v"), str) and pr["v"] != ""
+                and any(xp == tpl % (pr["k"], pr["v"], pr["f"]) for tpl in
+                        ("r[%s=%s]/%s", "r[%s!=%s]/%s", "r[%s~%s]/%s", "r/%s[text()=%s]/../%s", "/r[*]/[%s=%s]/%s")))
 
     def generate(self, rng, tier):
         n = 1500 if tier == "quick" else 40000
@@ -46,12 +66,36 @@ class C04(Prop):
             else:
                 xp = X.gen_soup(rng)
                 tag = "soup"
+            k2 = rng.random()
+            pred = None
+            if k2 < 0.08:
+                # a bare index expression (no '/' or '['): on a list root it goes straight to the index evaluator
+                xp = bare_index(rng)
+                tag = "bare"
+            elif k2 < 0.16 and root == "dict":
+                # a selecting step with a literal: the found-or-default decision rests on the literal comparison
+                recs = C6.gen_recs(rng)
+                t = {"r": recs, "a": t}
+                kf, f, v = rng.choice(C6.FIELDS), rng.choice(C6.FIELDS), rng.choice(C6.LITS)
+                present = [str(r[kf]) for r in recs if kf in r and isinstance(r[kf], (str, int, float)) and not isinstance(r[kf], bool)]
+                if present and rng.random() < 0.6:
+                    v = rng.choice(present)        # a literal that occurs in the data (as text)
+                    if rng.random() < 0.3 and v.lstrip("-").isdigit():
+                        v = str(int(v) + rng.choice([-1, 1]))   # ... or its integer neighbour
+                form, tpl = rng.choice([("eq", "r[%s=%s]/%s"), ("ne", "r[%s!=%s]/%s"), ("has", "r[%s~%s]/%s"),
+                                        ("text", "r/%s[text()=%s]/../%s"), ("eq", "/r[*]/[%s=%s]/%s")])
+                xp = tpl % (kf, v, f)
+                tag = "pred"
+                pred = {"form": form, "k": kf, "f": f, "v": v, "ppath": ["r"]}
             if rng.random() < 0.1:
                 xp = "?" + xp
             if rng.random() < 0.01:
-                xp, tag = rng.choice(["", "?", " ", "/", "[", "//"]), "degenerate"
+                xp, tag, pred = rng.choice(["", "?", " ", "/", "[", "//"]), "degenerate", None
             for kind in (0, 1, 2):
-                out.append({"stream": "lookup", "tag": "%s:%s" % (tag, root), "input": {"tree": t, "mode": mode, "xpath": xp, "kind": kind}})
+                inp = {"tree": t, "mode": mode, "xpath": xp, "kind": kind}
+                if pred:
+                    inp["pred"] = pred
+                out.append({"stream": "lookup", "tag": "%s:%s" % (tag, root), "input": inp})
         return out
 
     def run_impl(self, case):
@@ -98,6 +142,14 @@ class C04(Prop):
             return "%s raised %s" % ("get" if i["kind"] == 1 else "first", obs.get("exc"))
         if case.get("tag", "").startswith("resolves") and not q and isinstance(res, str) and res == X.DFLT:
             return "%r spells an existing node but get/first returned the default" % i["xpath"]
+        if i.get("pred") and not q:
+            # "resolves" decided independently of the implementation: the reference selection over the plain records
+            exp = C6.C06.expected(None, dict(i["pred"], tree=i["tree"]))
+            if exp is not None and "~" not in i["pred"]["v"]:
+                if exp[1] and isinstance(res, str) and res == X.DFLT:
+                    return "%r selects %r but get/first returned the default" % (i["xpath"], exp[1])
+                if not exp[1] and not (isinstance(res, str) and res == X.DFLT):
+                    return "%r selects nothing but get/first returned %r" % (i["xpath"], X.plain(res))
         if item is not None and not q:
             if item[0] == "raise" and res != X.DFLT:
                 return "item access raises %s but get/first returned %r instead of the default" % (item[1], res)
